@@ -15,13 +15,24 @@ theorem signal_fails_test_case (p : Prog) (src : Src) (ts : TS)
     ∃ e, (checkOnce p src ts).err = some e ∧ e.isInvalid = false :=
   checkOnce_signal p src ts h
 
-/-- a panic with any value (incl. runtime errors) that ends the body is the error of the test
-    case, unless a cleanup callback panics after it (then that panic is reported) -/
+/-- a panic with any value (incl. runtime errors) that ends the body falsifies the test case — whatever the
+    cleanup callbacks do afterwards: one that fails is reported instead (still a failure), one that skips
+    cannot turn the falsified test case into an invalid one (the defect repaired by the `fix:` commit
+    "a cleanup function that skips…": before it this theorem needed the hypothesis that no callback panics) -/
 theorem panic_fails_test_case (p : Prog) (src : Src) (ts : TS) (e : Err)
-    (hb : ((bodyOf p).run src { ts with ctxCount := 0 }).res = .error e) (he : e.isInvalid = false)
-    (hc : (cleanupPhase ((bodyOf p).run src { ts with ctxCount := 0 }).ts).err = none) :
+    (hb : ((bodyOf p).run src { ts with ctxCount := 0 }).res = .error e) (he : e.isInvalid = false) :
     ∃ e', (checkOnce p src ts).err = some e' ∧ e'.isInvalid = false :=
-  checkOnce_body_error p src ts e hb he hc
+  checkOnce_body_error p src ts e hb he
+
+/-- the excluded point of the earlier statement, now a theorem: a panic followed by a cleanup that skips -/
+example : (checkOnce (.cleanup (.throw (.invalid "skip")) (.throw (.panic "boom" 1))) (.buf []) TS.fresh).err
+    = some (.panic "boom" 1) := by decide
+
+/-- …and inside a Custom function whose own cleanup skips -/
+example : (checkOnce (.inner (.cleanup (.throw (.invalid "skip")) (.throw (.panic "boom" 1))) .ret) (.buf []) TS.fresh).err
+    = some (.panic "boom" 1) := by
+  simp [checkOnce, Prog.run, Out.ofRes, cleanupPhase, TS.fresh, runStack, stackSize, CTree.run, CTree.size, pickErr,
+    Err.isInvalid]
 
 /-- a falsified test case fails the enclosing test -/
 theorem falsified_fails_tb (p : Prog) (checks : Nat) (seed : UInt64) (files : List FF)
@@ -46,6 +57,6 @@ example : (checkOnce (.inner (.errorf "in custom" (.ret .nil)) .ret) (.buf []) T
 example : (checkOnce (.inner (.cleanup (.errorf "late" .done) (.ret .nil)) .ret) (.buf []) TS.fresh).err
     = some (.stop "late" sitePending) := by
   simp [checkOnce, Prog.bind, Prog.run, Out.ofRes, cleanupPhase, TS.fresh, runStack, stackSize, Out.after,
-    CTree.run, CTree.size]
+    CTree.run, CTree.size, pickErr]
 
 end Rapid.C02
